@@ -171,3 +171,100 @@ Proof.
   { intros a b Hc. induction Hc; [auto|lia]. }
   intros k Hk. specialize (H k k Hk). lia.
 Qed.
+
+(* ---------- the static class of a dotted operand does not depend on how the operand is spelled ---------- *)
+
+Definition item_ci (i i' : item) : Prop :=
+  match i, i' with
+  | IId n, IId n' => upper n = upper n'
+  | ICall n, ICall n' => upper n = upper n'
+  | _, _ => False
+  end.
+
+Lemma item_ci_name i i' : item_ci i i' -> upper (item_name i) = upper (item_name i').
+Proof. destruct i, i'; cbn [item_ci item_name]; tauto. Qed.
+
+Lemma class_chain_during_ci ws c m d d' : upper d = upper d' ->
+  class_chain_during ws c m d = class_chain_during ws c m d'.
+Proof.
+  intro E. pose proof (ci_eqb_of_upper _ _ E) as H. unfold class_chain_during.
+  destruct (class_of_reference_ci ws d d' E) as (_ & E2 & E3). rewrite E2, E3.
+  replace (ci_eqb d' c) with (ci_eqb d c); [reflexivity|]. unfold ci_eqb. rewrite E. reflexivity.
+Qed.
+
+Lemma is_intrinsic_ci n n' : upper n = upper n' -> is_intrinsic n = is_intrinsic n'.
+Proof. intro E. unfold is_intrinsic. rewrite E. reflexivity. Qed.
+
+Lemma head_etype_ci ws c m i i' : item_ci i i' -> head_etype ws c m i = head_etype ws c m i'.
+Proof.
+  destruct i as [n|n], i' as [n'|n']; cbn [item_ci]; try contradiction; intro E; cbn [head_etype].
+  - rewrite (search_wparent_ci _ n n' E).
+    destruct (class_of_reference_ci ws n n' E) as (E1 & _ & _). rewrite E1.
+    rewrite (class_chain_during_ci ws c m n n' E), (search_wparent_ci _ n n' E). reflexivity.
+  - rewrite (is_intrinsic_ci n n' E), (search_wparent_ci _ n n' E). reflexivity.
+Qed.
+
+(* the comparison `left type spelled exactly as the class being annotated` (for_class_or_module) is harmless:
+   both branches reach the same table *)
+Lemma next_etype_ci ws c m t t' i i' :
+  upper (sty_name t) = upper (sty_name t') -> upper (item_name i) = upper (item_name i') ->
+  next_etype ws c m t i = next_etype ws c m t' i'.
+Proof.
+  intros Et Ei. unfold next_etype.
+  set (own := match find_entity ws c with Some e => e_name e | None => c end).
+  set (d := match t with SClass s => s | SModule s => s end).
+  set (d' := match t' with SClass s => s | SModule s => s end).
+  assert (Ed : upper d = upper d') by (destruct t, t'; exact Et).
+  assert (Hown : upper own = upper c).
+  { unfold own. destruct (find_entity ws c) eqn:F; [|reflexivity].
+    apply find_entity_in in F. destruct F as [_ F]. apply ci_eqb_true in F. exact F. }
+  (* when the left type names the annotated class (in any case) the table is that of c *)
+  assert (Same : forall x, upper x = upper own ->
+            (match find_entity ws x with
+             | Some _ => sym_etype etype_fuel ws None (search_wparent (class_chain_during ws c m x) (item_name i))
+             | None => None
+             end) = sym_etype etype_fuel ws None (search_wparent (class_chain_during ws c m c) (item_name i))).
+  { intros x Ex. assert (Exc : upper x = upper c) by congruence.
+    destruct (class_of_reference_ci ws x c Exc) as (F1 & F2 & _). rewrite F1.
+    destruct (find_entity ws c) eqn:F.
+    - rewrite (class_chain_during_ci ws c m x c Exc). reflexivity.
+    - unfold class_chain_during. rewrite (lineage_not_indexed ws c F).
+      unfold class_chain. rewrite (lineage_not_indexed ws c F). reflexivity. }
+  rewrite <- (search_wparent_ci _ _ _ Ei).
+  rewrite <- (search_wparent_ci (class_chain_during ws c m d') _ _ Ei).
+  destruct (str_eqb d own) eqn:A, (str_eqb d' own) eqn:B.
+  - reflexivity.
+  - apply str_eqb_eq in A. symmetry. apply Same. rewrite <- Ed, A. reflexivity.
+  - apply str_eqb_eq in B. apply Same. rewrite Ed, B. reflexivity.
+  - destruct (class_of_reference_ci ws d d' Ed) as (F1 & _ & _). rewrite F1.
+    rewrite (class_chain_during_ci ws c m d d' Ed). reflexivity.
+Qed.
+
+Lemma chain_etype_ci ws c m l l' : Forall2 item_ci l l' ->
+  forall a, chain_etype ws c m a l = chain_etype ws c m a l'.
+Proof.
+  induction 1 as [|i i' l l' Hi Hl IH]; intro a; [reflexivity|].
+  unfold chain_etype. cbn [fold_left].
+  fold (chain_etype ws c m (match a with None => None | Some t => next_etype ws c m t i end) l).
+  fold (chain_etype ws c m (match a with None => None | Some t => next_etype ws c m t i' end) l').
+  destruct a as [t|].
+  - rewrite (next_etype_ci ws c m t t i i' eq_refl (item_ci_name _ _ Hi)). apply IH.
+  - apply IH.
+Qed.
+
+(* the static class of a dotted operand written in method m of class c is the same for every spelling of
+   the operand's names *)
+Theorem static_class_ci ws c m p p' : Forall2 item_ci p p' -> static_class ws c m p = static_class ws c m p'.
+Proof.
+  destruct 1 as [|i i' l l' Hi Hl]; [reflexivity|]. cbn [static_class].
+  rewrite (head_etype_ci ws c m i i' Hi). apply chain_etype_ci. exact Hl.
+Qed.
+
+(* hence the proposals after `operand.` and the links of `operand.name` do not depend on the operand's spelling *)
+Theorem dotted_spelling_ci ws c m p p' id id' : Forall2 item_ci p p' -> upper id = upper id' ->
+  completion_dotted ws c m p = completion_dotted ws c m p' /\
+  definition_dotted ws c m p id = definition_dotted ws c m p' id'.
+Proof.
+  intros Hp Ei. apply dotted_ci; [|exact Ei]. rewrite (static_class_ci ws c m p p' Hp).
+  destruct (static_class ws c m p'); [reflexivity|exact I].
+Qed.
